@@ -2,7 +2,7 @@
 import os
 from vlib import rc, rcheck, run as vrun, build, fsgen
 LEVEL = 'exploration'
-RULE = ('rapidcheck generates a template choice (extent / block-mapped / bigalloc / inline-data files; 1k and 4k blocks; empty and nearly full filesystems) and 2-40 ops on 1-3 files: '
+RULE = ('rapidcheck generates a template choice (extent / block-mapped / bigalloc / inline-data files; 1k and 4k blocks; empty and nearly full filesystems; two templates whose first file already has a two-level extent tree of 1500 / 7300 single-block extents) and 2-40 ops on 1-3 files: '
         'write/read at offsets biased to block, cluster, indirect-level (12, 12+apb, 12+apb+k*apb, 12+apb+apb^2) and extent-leaf boundaries, set_size, punch, fallocate (all flag sets), '
         'flush, close, filesystem reopen; oracle = sparse byte model per file (unknown after a reported error or where the API leaves data unspecified), other files compared at the end, '
         'exact read lengths, e2fsck -fn == 0 after close; non-trivial = a read after >= 2 mutating ops on that file, or a filesystem reopen after a punch/truncate; distinct by FNV hash of the case')
@@ -21,7 +21,11 @@ TEMPLATES = [
     ('blockmap-1k-full', 'ext2', 1024, 8193, [], [], True),
     ('bigalloc-1k-c4-full', 'ext4', 1024, 16384, ['bigalloc'], ['-C', '4096'], True),
     ('extent-1k-nojournal', 'ext4', 1024, 4097, ['^has_journal', '^metadata_csum'], [], False),
+    # f0 pre-populated with one extent per block (every other block): extent trees two levels deep, the 1k one with two entries in the root
+    ('extent-1k-deep', 'ext4', 1024, 20480, [], [], False),
+    ('extent-4k-deep', 'ext4', 4096, 6144, [], [], False),
 ]
+PREFILL = {'extent-1k-deep': (7300, 2), 'extent-4k-deep': (1500, 2)}
 
 def make_templates(tools, d, ctx):
     n = 0
@@ -30,7 +34,13 @@ def make_templates(tools, d, ctx):
         p = fsgen.mkfs(tools, img, blocks, bs, feats, extra, fstype=fstype)
         if p.rc != 0: raise RuntimeError('template %s: mke2fs failed: %s' % (name, p.out))
         cmds = ['write /dev/null f0', 'write /dev/null f1', 'write /dev/null f2']
-        r = tools.dbg(img, cmds, write=True)
+        if name in PREFILL:
+            nb, stride = PREFILL[name]; src = os.path.join(d, 'prefill-src')
+            with open(src, 'wb') as fh:
+                for k in range(nb): b = k * stride; fh.seek(b * bs); fh.write(bytes([((b * 7 + 3) & 0xff) | 1]) * bs)
+            cmds[0] = 'write %s f0' % src
+            with open(img + '.prefill', 'w') as fh: fh.write('%d %d\n' % (nb, stride))
+        r = tools.dbg(img, cmds, write=True, cpu=300)
         if full:
             # fill all but ~60 blocks/clusters
             q = tools.dbg(img, ['ffb 1 0'] if False else ['stats -h'])
